@@ -1176,6 +1176,66 @@ theorem PublicKeys_eq (env : Env) (secret : WellKnownSecret) (k : Kind) (hk : (k
         have hb : (secret.Kind == 1) = false := by simpa using h1
         simp [hb, hk', absKeys, tagsOf]
 
+/-! ## cashu/nuts/nut11: ProofsSigAll (which swaps need signed outputs; the repaired F7) -/
+
+/-- a proof as `ProofsSigAll` sees it: the NUT-10 reading of its secret, if it has one -/
+def sigAllView (extDS : String → WellKnownSecret × Option String) (k : Kind) (p : Gen.Code.Proof) : Spend.Proof :=
+  { secret := match extDS p.Secret with
+      | (_, some _) => none
+      | (s, none) => some { kind := k, data := s.Data.Data, tags := s.Data.Tags },
+    msg := 0, witness := default }
+
+/-- the regenerated `nut11.ProofsSigAll` is the model's `proofsSigAll`: a secret that is not NUT-10 is SKIPPED (F7: it
+    used to end the search), a SIG_ALL secret at any position answers true -/
+theorem ProofsSigAll_eq (extDS : String → WellKnownSecret × Option String) (k : Kind) (proofs : List Gen.Code.Proof) :
+    nut11_ProofsSigAll extDS proofs = proofsSigAll (proofs.map (sigAllView extDS k)) := by
+  unfold nut11_ProofsSigAll rangeLoop
+  generalize hL : rangeLoopFrom _ 0 proofs () = L
+  have h : L = if proofsSigAll (proofs.map (sigAllView extDS k)) then (.ret true, ()) else (.next, ()) := by
+    rw [← hL]
+    refine rangeLoopFrom_spec' _
+      (fun (xs : List Gen.Code.Proof) (_ : Unit) (res : Ctl Bool × Unit) =>
+        res = if proofsSigAll (xs.map (sigAllView extDS k)) then (.ret true, ()) else (.next, ())) ?_ ?_ ?_ ?_ 0 proofs ()
+    · intro s; simp [proofsSigAll]
+    · intro i x xs s s' hb r hr
+      rw [hr]
+      rcases hd : extDS x.Secret with ⟨sec, err⟩
+      simp only [hd] at hb
+      cases err with
+      | some e => simp [proofsSigAll, sigAllView, hd, sigAllOnPlainSecret]
+      | none =>
+        simp only [Option.isNone_none, Bool.not_true, Bool.false_eq_true, if_false] at hb
+        by_cases hs : nut11_IsSigAll sec = true
+        · simp [hs] at hb
+        · have hm := nut11_IsSigAll_eq sec k
+          simp only [List.map_cons, proofsSigAll, sigAllView, hd]
+          rw [← hm]
+          simp [hs]
+    · intro i x xs s s' hb
+      rcases hd : extDS x.Secret with ⟨sec, err⟩
+      simp only [hd] at hb
+      cases err with
+      | some e => simp at hb
+      | none =>
+        simp only [Option.isNone_none, Bool.not_true, Bool.false_eq_true, if_false] at hb
+        by_cases hs : nut11_IsSigAll sec = true <;> simp [hs] at hb
+    · intro i x xs s v s' hb
+      rcases hd : extDS x.Secret with ⟨sec, err⟩
+      simp only [hd] at hb
+      cases err with
+      | some e => simp at hb
+      | none =>
+        simp only [Option.isNone_none, Bool.not_true, Bool.false_eq_true, if_false] at hb
+        by_cases hs : nut11_IsSigAll sec = true
+        · simp only [hs, if_true] at hb
+          have hm := nut11_IsSigAll_eq sec k
+          simp only [List.map_cons, proofsSigAll, sigAllView, hd]
+          rw [← hm, hs]
+          cases hb; rfl
+        · simp [hs] at hb
+  rw [h]
+  cases proofsSigAll (proofs.map (sigAllView extDS k)) <;> rfl
+
 end ParseTags
 
 /-! ## non-vacuity: the regenerated definitions compute (closed instances, evaluated by the kernel) -/
